@@ -26,6 +26,7 @@ class Hub:
     def __init__(self):
         self.subs = {}
         self.pop_override = None  # callable(triggered, prev) -> prop_idx, or None
+        self.status_map = None  # callable(status) -> status handed to the engine (C07 differential)
         self.last_prop_idx = -1
         self.installed = False
         self.depth_alg = 0
@@ -36,6 +37,7 @@ class Hub:
     def off_all(self):
         self.subs = {}
         self.pop_override = None
+        self.status_map = None
 
     def emit(self, event, *a):
         for cb in self.subs.get(event, ()):
@@ -71,8 +73,11 @@ def install():
                 before = domains.copy()
                 status = f(domains, params)
                 hub.emit("prop_exit", i, before, domains, params, status)
-                return status
-            return f(domains, params)
+            else:
+                status = f(domains, params)
+            if hub.status_map is not None:
+                status = hub.status_map(status)
+            return status
 
         w.__wrapped__ = f
         w.__name__ = getattr(f, "__name__", "prop")
